@@ -76,7 +76,7 @@ def reads_bloom(rng, f, keys, other, sc, hf, counting):
     done = []
     for _ in range(rng.randint(6, 16)):
         k = rng.choice(keys + ["absent-key", b"absent-bytes", ""])
-        c = rng.choice(["check", "in", "check_alt", "hashes", "hashes_depth", "str", "estimate", "cfpr", "export_size", "hex", "bytes", "export_path", "export_obj",
+        c = rng.choice(["check", "in", "check_alt", "hashes", "hashes_depth", "str", "estimate", "cfpr", "export_size", "hex", "bytes", "export_path", "export_obj", "export_refused",
                         "c_header", "props", "jaccard", "union", "intersection", "as_argument"])
         done.append(c)
         if c == "check":
@@ -106,6 +106,9 @@ def reads_bloom(rng, f, keys, other, sc, hf, counting):
         elif c == "export_obj":
             if not f.is_on_disk:
                 f.export(io.BytesIO())
+        elif c == "export_refused":
+            if not f.is_on_disk:
+                done[-1] = "export refused: " + bl.refused_export(sc.ctx, rng, f, sc)
         elif c == "c_header":
             if f.elements_added >= 0:
                 f.export_c_header(sc.path("hdr"))
@@ -332,7 +335,7 @@ def wl_expanding(ctx, rng, case):
         done = []
         for _ in range(rng.randint(5, 14)):
             k = rng.choice(keys + ["absent", b"nope"])
-            c = rng.choice(["check", "in", "check_alt", "bytes", "export_path", "export_obj", "props"])
+            c = rng.choice(["check", "in", "check_alt", "bytes", "export_path", "export_obj", "export_refused", "props"])
             done.append(c)
             if c == "check":
                 f.check(k)
@@ -346,6 +349,8 @@ def wl_expanding(ctx, rng, case):
                 f.export(sc.path("ro"))
             elif c == "export_obj":
                 f.export(io.BytesIO())
+            elif c == "export_refused":
+                done[-1] = "export refused: " + bl.refused_export(ctx, rng, f, sc)
             else:
                 (f.expansions, f.false_positive_rate, f.estimated_elements, f.elements_added, f.hash_function)
         for k in keys + ["absent"]:
@@ -421,7 +426,7 @@ def wl_sketch(ctx, rng, case):
         done = []
         for _ in range(rng.randint(5, 14)):
             k = rng.choice(keys + ["absent", "other"])
-            c = rng.choice(["check", "in", "check_alt", "hashes", "str", "bytes", "export_path", "export_obj", "props", "join_as_argument", "tables"])
+            c = rng.choice(["check", "in", "check_alt", "hashes", "str", "bytes", "export_path", "export_obj", "export_refused", "props", "join_as_argument", "tables"])
             done.append(c)
             if c == "check":
                 f.check(k)
@@ -439,6 +444,8 @@ def wl_sketch(ctx, rng, case):
                 f.export(sc.path("ro"))
             elif c == "export_obj":
                 f.export(io.BytesIO())
+            elif c == "export_refused":
+                done[-1] = "export refused: " + bl.refused_export(ctx, rng, f, sc)
             elif c == "props":
                 (f.width, f.depth, f.confidence, f.error_rate, f.elements_added, f.query_type)
             elif c == "join_as_argument":
@@ -502,7 +509,7 @@ def wl_cuckoo(ctx, rng, case):
         done = []
         for _ in range(rng.randint(5, 14)):
             k = rng.choice(keys + ["absent", b"nope"])
-            c = rng.choice(["check", "in", "str", "bytes", "export_path", "export_obj", "load_factor", "props"])
+            c = rng.choice(["check", "in", "str", "bytes", "export_path", "export_obj", "export_refused", "load_factor", "props"])
             done.append(c)
             if c == "check":
                 f.check(k)
@@ -516,6 +523,8 @@ def wl_cuckoo(ctx, rng, case):
                 f.export(sc.path("ro"))
             elif c == "export_obj":
                 f.export(io.BytesIO())
+            elif c == "export_refused":
+                done[-1] = "export refused: " + bl.refused_export(ctx, rng, f, sc)
             elif c == "load_factor":
                 f.load_factor()
             else:
@@ -646,5 +655,6 @@ PROP = Prop(
         Workload("quotient", wl_quotient, quick=400, thorough=150000),
     ],
     assumptions=["observable state = what the public API exposes (exports, counters, tables, bucket table, print() dump)"],
-    required=["read_batches", "read_only_calls", "clear_comparisons", "states_with_zero_total_but_nonzero_cells", "reloaded_states"],
+    required=["read_batches", "read_only_calls", "clear_comparisons", "states_with_zero_total_but_nonzero_cells", "reloaded_states", "refused_exports",
+              "quotient.completely_full_tables", "quotient.states_whose_load_is_at_or_over_the_limit_with_growing_on"],
 )
